@@ -16,6 +16,7 @@ import (
 	"time"
 
 	"github.com/bnb-chain/tss-lib/v2/common"
+	"github.com/bnb-chain/tss-lib/v2/crypto"
 	"github.com/bnb-chain/tss-lib/v2/ecdsa/keygen"
 	"pgregory.net/rapid"
 
@@ -48,6 +49,35 @@ func (r *instrReader) Read(p []byte) (int, error) {
 	return r.base.Read(p)
 }
 
+// shortReader is a healthy entropy source that returns at most max bytes per call (io.Reader allows that).
+type shortReader struct {
+	base io.Reader
+	max  int
+}
+
+func (r shortReader) Read(p []byte) (int, error) {
+	if len(p) > r.max {
+		p = p[:r.max]
+	}
+	return r.base.Read(p)
+}
+
+// zeroRun: the longest run of zero bytes in v's big-endian encoding.
+func zeroRun(v *big.Int) int {
+	best, cur := 0, 0
+	for _, b := range v.Bytes() {
+		if b == 0 {
+			cur++
+			if cur > best {
+				best = cur
+			}
+		} else {
+			cur = 0
+		}
+	}
+	return best
+}
+
 func primeGenGoroutines() int {
 	buf := make([]byte, 1<<20)
 	n := runtime.Stack(buf, true)
@@ -70,7 +100,7 @@ type c19Case struct {
 	Bits   int
 	Num    int
 	Conc   int
-	Reader string // crypto | drbg | fail | fail-slow | cancel
+	Reader string // crypto | drbg | onebyte | chunk | fail | fail-slow | cancel
 	At     int
 	Seed   int
 }
@@ -80,7 +110,7 @@ func genC19(t *rapid.T) c19Case {
 	c.Bits = rapid.SampledFrom([]int{6, 7, 8, 9, 10, 10, 11, 12, 13, 14, 15, 16, 17, 18, 19, 20, 24, 32, 64, 128, 256}).Draw(t, "bits")
 	c.Num = rapid.IntRange(1, 4).Draw(t, "num")
 	c.Conc = rapid.IntRange(1, 8).Draw(t, "conc")
-	c.Reader = rapid.SampledFrom([]string{"crypto", "crypto", "drbg", "fail", "fail-slow", "cancel", "cancel"}).Draw(t, "reader")
+	c.Reader = rapid.SampledFrom([]string{"crypto", "crypto", "drbg", "onebyte", "chunk", "fail", "fail-slow", "cancel", "cancel"}).Draw(t, "reader")
 	c.At = rapid.IntRange(1, 60).Draw(t, "at")
 	c.Seed = rapid.IntRange(0, 1<<20).Draw(t, "seed")
 	return c
@@ -118,7 +148,7 @@ func checkSafePrime(sgp *common.GermainSafePrime, bits int, admissible map[int64
 
 func runC19(c c19Case) ev.Outcome {
 	out := ev.Outcome{Label: fmt.Sprintf("safeprimes bits=%d num=%d conc=%d reader=%s", c.Bits, c.Num, c.Conc, c.Reader)}
-	out.Nontrivial = (c.Bits <= 20 && c.Conc >= 2) || c.Reader == "fail" || c.Reader == "fail-slow" || c.Reader == "cancel"
+	out.Nontrivial = (c.Bits <= 20 && c.Conc >= 2) || c.Reader == "fail" || c.Reader == "fail-slow" || c.Reader == "cancel" || c.Reader == "onebyte" || c.Reader == "chunk"
 	fail := func(sig, f string, a ...interface{}) ev.Outcome {
 		out.Err, out.Sig = fmt.Errorf(f, a...), sig
 		return out
@@ -143,6 +173,10 @@ func runC19(c c19Case) ev.Outcome {
 	switch c.Reader {
 	case "drbg":
 		rd = newDRBG(fmt.Sprintf("c19/%d", c.Seed))
+	case "onebyte":
+		rd = shortReader{rand.Reader, 1}
+	case "chunk":
+		rd = shortReader{rand.Reader, c.At%7 + 2}
 	case "fail":
 		ir.failAt = int64(c.At)
 		rd = ir
@@ -183,8 +217,8 @@ func runC19(c c19Case) ev.Outcome {
 	}
 	if r.err != nil {
 		switch c.Reader {
-		case "crypto", "drbg":
-			return fail("unexpected-error", "generation failed without an injected fault: %v", r.err)
+		case "crypto", "drbg", "onebyte", "chunk":
+			return fail("unexpected-error", "generation failed without an injected fault (reader=%s): %v", c.Reader, r.err)
 		}
 		if c.Reader == "cancel" && took > 20*time.Second {
 			return fail("cancel-slow", "cancellation took %v to be honoured", took)
@@ -197,6 +231,10 @@ func runC19(c c19Case) ev.Outcome {
 	for _, sgp := range r.ps {
 		if err := checkSafePrime(sgp, c.Bits, admissible); err != nil {
 			return fail("structure", "bits=%d: %v", c.Bits, err)
+		}
+		// a prime drawn from a healthy source has no long run of zero bytes (chance < 2^-40 per prime)
+		if c.Bits >= 128 && zeroRun(sgp.Prime()) >= 6 {
+			return fail("degenerate", "bits=%d reader=%s: q=%x contains %d consecutive zero bytes", c.Bits, c.Reader, sgp.Prime(), zeroRun(sgp.Prime()))
 		}
 	}
 	return out
@@ -222,6 +260,15 @@ func TestC19SmallSizesSweep(t *testing.T) {
 		for num := 1; num <= 2; num++ {
 			cases = append(cases, c19Case{Bits: 32, Num: num, Conc: conc, Reader: "fail-slow", At: 1})
 			cases = append(cases, c19Case{Bits: 256, Num: num, Conc: conc, Reader: "fail-slow", At: 2})
+		}
+	}
+	// healthy entropy sources that return short reads (1 byte, or a few bytes, per call)
+	for _, bits := range []int{32, 64, 128, 256} {
+		for conc := 1; conc <= 3; conc++ {
+			cases = append(cases, c19Case{Bits: bits, Num: 1 + conc%2, Conc: conc, Reader: "onebyte"})
+			for at := 0; at < 7; at += 3 {
+				cases = append(cases, c19Case{Bits: bits, Num: 1 + conc%2, Conc: conc, Reader: "chunk", At: at})
+			}
 		}
 	}
 	ev.Each(t, r, cases, runC19)
@@ -487,6 +534,92 @@ func runC19Sampler(c c19Sampler) ev.Outcome {
 		return fail("sampler-range", "%v", problem)
 	}
 	return out
+}
+
+// ---- GenerateNTildei (crypto/utils.go): builds a ring-Pedersen modulus from two caller-supplied primes ----
+
+type c19NT struct {
+	Slots [2]string // prime | safe | composite | one | zero | nil | even | square
+	Seed  int
+}
+
+var c19Primes = []string{"b", "65", "10001", "fffffffb", "ffffffffffffffc5", "fffffffffffffffffffffffffffffffeffffffffffffffff"} // 11,101,65537,2^32-5,2^64-59,P-192
+
+func c19Slot(cls string, seed int) *big.Int {
+	p := func(i int) *big.Int { v, _ := new(big.Int).SetString(c19Primes[i%len(c19Primes)], 16); return v }
+	switch cls {
+	case "prime":
+		return p(seed)
+	case "safe":
+		return big.NewInt([]int64{23, 47, 59, 83, 107, 167, 179, 227, 263, 347}[seed%10])
+	case "composite":
+		return mul(p(seed), p(seed+1))
+	case "square":
+		return mul(p(seed), p(seed))
+	case "one":
+		return big.NewInt(1)
+	case "zero":
+		return big.NewInt(0)
+	case "even":
+		return mul(two, p(seed+1))
+	}
+	return nil
+}
+
+func runC19NT(c c19NT) ev.Outcome {
+	out := ev.Outcome{Label: fmt.Sprintf("ntilde-helper slots=%s/%s", c.Slots[0], c.Slots[1])}
+	fail := func(sig, f string, a ...interface{}) ev.Outcome {
+		out.Err, out.Sig = fmt.Errorf(f, a...), sig
+		return out
+	}
+	a, b := c19Slot(c.Slots[0], c.Seed), c19Slot(c.Slots[1], c.Seed+3)
+	good := func(s string) bool { return s == "prime" || s == "safe" }
+	out.Nontrivial = good(c.Slots[0]) != good(c.Slots[1])
+	var NT, h1, h2 *big.Int
+	var err error
+	okT, p := withDeadline(60*time.Second, func() { NT, h1, h2, err = crypto.GenerateNTildei(rand.Reader, [2]*big.Int{a, b}) })
+	if !okT {
+		return fail("ntilde-hang", "GenerateNTildei(%v,%v) did not return", a, b)
+	}
+	if p != nil {
+		return fail("ntilde-panic", "GenerateNTildei(%v,%v) panicked: %v", a, b, p)
+	}
+	if !(good(c.Slots[0]) && good(c.Slots[1])) {
+		if err == nil {
+			return fail("ntilde-accepts-nonprime", "GenerateNTildei accepted factors %v (%s) and %v (%s) and returned NTilde=%v", a, c.Slots[0], b, c.Slots[1], NT)
+		}
+		return out
+	}
+	if err != nil {
+		return fail("ntilde-refuses-primes", "GenerateNTildei(%v,%v): %v", a, b, err)
+	}
+	if NT == nil || NT.Cmp(mul(a, b)) != 0 {
+		return fail("ntilde-value", "NTilde=%v is not the product of %v and %v", NT, a, b)
+	}
+	for _, h := range []*big.Int{h1, h2} {
+		if h == nil || h.Sign() <= 0 || h.Cmp(NT) >= 0 || new(big.Int).GCD(nil, nil, h, NT).Cmp(one) != 0 {
+			return fail("ntilde-h", "h=%v is not a unit in [1,NTilde) for NTilde=%v", h, NT)
+		}
+		if a.Cmp(b) != 0 && (big.Jacobi(h, a) != 1 || big.Jacobi(h, b) != 1) {
+			return fail("ntilde-h", "h=%v is not a square modulo both factors of NTilde=%v", h, NT)
+		}
+	}
+	return out
+}
+
+func TestC19NTildeHelper(t *testing.T) {
+	r := ev.New(t, "C19")
+	classes := []string{"prime", "safe", "composite", "square", "one", "zero", "even", "nil"}
+	var cases []c19NT
+	for i, x := range classes {
+		for j, y := range classes {
+			for sd := 0; sd < ev.Scale(3, 12); sd++ {
+				cases = append(cases, c19NT{Slots: [2]string{x, y}, Seed: sd + i + 2*j})
+			}
+		}
+	}
+	ev.Each(t, r, cases, runC19NT)
+	r.SetExhaustive(true)
 }
 
 func TestC19Samplers(t *testing.T) {
